@@ -26,6 +26,7 @@
 #include "scientificinfo.h"
 
 #define CPCACONVERGENCE 1e-18
+#define CPCAMAXITER 100000 /* upper bound of iterations per component */
 
 /**
  * CPCA model data structure.
